@@ -964,9 +964,12 @@ def c15_generate(rng, tier):
     # difference there is a broken tie, not by itself a violation (_rel = [])
     c = tag_cmp(genhist.gen_txt_write(rng, count(tier, 150, 1500)), ["text"])
     d = tag_cmp(genhist.gen_txt_read(rng, count(tier, 400, 4000)), ["parsed"])
-    for s in c + d:
-        s["_rel"] = []
-    return tag_cmp(a, None) + b + c + d
+    # the JSON text layer: writer text against Model/JsonText.lean; prefixes and damaged variants
+    # through the model's scanner and through json.loads
+    e = tag_cmp(genhist.gen_json_text(rng, count(tier, 150, 1500)), ["text", "prefix_not_none"])
+    for s in c + d + e:
+        s["_rel"] = ["prefix_not_none"] if s["op"] == "json_text" else []
+    return tag_cmp(a, None) + b + c + d + e
 
 
 def c15_search(rng, tier):
@@ -980,6 +983,21 @@ def c15_judge(rec):
     sorted names, and reading the file back returns exactly the names whenever they are clean"""
     s, l = rec["scn"], rec["lean"]
     fails = []
+    if s.get("op") == "json_text":
+        for hs, p in rec["py"].items():
+            if not isinstance(p, dict) or not isinstance(l, dict) or "_loads_ok" not in p:
+                continue
+            opens = l.get("open", [])
+            for i, (k, okp) in enumerate(zip(p["_kinds"], p["_loads_ok"])):
+                o = opens[i] if i < len(opens) else None
+                t = p["_inject"]["texts"][i]
+                if o is True and okp:
+                    fails.append(f"assumption broken: json.loads accepts a text the scanner calls open: {t[:80]!r}")
+                if k == "prefix" and t != "" and o is not True:
+                    fails.append(f"model: a proper non-empty prefix is not open at its end: {t[-40:]!r}")
+                if k == "prefix" and okp:
+                    fails.append(f"json.loads accepts a proper prefix of a written file: {t[-40:]!r}")
+        return fails
     if s.get("op") != "txt_fields":
         return fails
     for hs, p in rec["py"].items():
@@ -1003,7 +1021,7 @@ PROPS["C15"] = {"generate": c15_generate, "search": c15_search,
                 "level": "proof",
                 "rule": "graphs, divisors (magnitudes up to 10^30, also results of CFLaplacian.apply), partial/full orientations, sparse/dense scripts with plain, Unicode, long, blank-containing, digit-like and hostile names; dict (through json text), JSON file and TXT file round trips compared observationally with the original; fault enumeration per written file: byte-prefix truncations (quick: 64 evenly spaced + last 16; thorough: all) and single-byte corruptions (quick 48 random; thorough every position x 3 values): must not raise, JSON proper prefixes must read None, anything returned must be a well-formed object; missing files read None",
                 "theorems": ["graph_dict_roundtrip", "edge_list_canonical", "divisor_dict_roundtrip", "script_dict_roundtrip", "decimal_roundtrip", "orientation_dict_roundtrip", "txt_fields_roundtrip", "txt_line_roundtrip", "txt_int_field_clean", "txt_record_roundtrip",
-                             "txt_graph_file_roundtrip", "txt_divisor_file_roundtrip", "txt_orientation_file_roundtrip", "txt_script_file_roundtrip", "txt_int_roundtrip"]}
+                             "txt_graph_file_roundtrip", "txt_divisor_file_roundtrip", "txt_orientation_file_roundtrip", "txt_script_file_roundtrip", "txt_int_roundtrip", "json_truncation_open"]}
 
 
 # ---- C19
